@@ -414,6 +414,14 @@ class OArr(_np.ndarray):
         r = _np.ndarray.__getitem__(self, key)
         return r
 
+    def __array_wrap__(self, obj, context=None, return_scalar=False):
+        # results of ufuncs / reductions behave exactly like those of a plain object ndarray (0-d results are the scalar itself)
+        if isinstance(obj, _np.ndarray):
+            if obj.ndim == 0:
+                return obj[()]
+            return obj.view(_np.ndarray)
+        return obj
+
 
 class MT(T):
     """mutable tensor (np.empty / np.zeros followed by slice assignment): functional updates"""
@@ -487,6 +495,10 @@ class MT(T):
 # ---------------------------------------------------------------------------
 # numpy shim
 # ---------------------------------------------------------------------------
+def _asbool(r):
+    return r.astype(bool) if isinstance(r, _np.ndarray) else bool(r)
+
+
 def _symbolic(x):
     if isinstance(x, (T, S, B)):
         return True
@@ -659,7 +671,7 @@ class _NPX(object):
         if isinstance(x, T):
             return T(x._shape, lambda idx: sp.false, True)
         if _symbolic(x):
-            return _np.frompyfunc(lambda v: w(v) in (sp.oo, -sp.oo), 1, 1)(_np.asarray(x, dtype=object)).astype(bool)
+            return _asbool(_np.frompyfunc(lambda v: w(v) in (sp.oo, -sp.oo), 1, 1)(_np.asarray(x, dtype=object)))
         return _np.isinf(x)
 
     def isfinite(self, x):
